@@ -6,8 +6,8 @@
    values V = Z: the id of the value the unwrapped body returns, f a = base;
    folders F = Z;  sizes are supplied per value id by the harness
    (sys.getsizeof(pickle.dumps(value))). *)
-From Coq Require Import ZArith List Bool.
-From DM Require Export Spec.Memo.
+From Coq Require Import ZArith List Bool String.
+From DM Require Export Base.PyVal Spec.Memo Spec.MemoKey.
 Import ListNotations.
 Open Scope Z_scope.
 
@@ -28,3 +28,13 @@ Definition tC (i : nat) (a : nat) (e : event Z Z) : tev nat Z Z Z := TCall i a e
 (* true = the observed trace satisfies the property *)
 Definition oracle (sizes : list (Z * Z)) (tr : list (tev nat Z Z Z)) : bool :=
   accept nat Z Z Z cf ckey cthunks (csize sizes) Z.eqb Z.eqb Z.eqb w0 tr.
+
+(* ---- the key: does the implementation give two argument lists the same key exactly when they are the same
+   argument list (Spec/MemoKey.v: tuple ~ list, keyword/dict order irrelevant, everything else distinguished)? ---- *)
+Definition mkcall (a : list arg) (k : list (string * arg)) : call := {| c_args := a; c_kwargs := k |}.
+Definition key_pair_ok (c c' : call) (same_key : bool) : bool :=
+  call_wfb c && call_wfb c' && Bool.eqb (call_eqvb c c') same_key.
+(* all pairs of a list of (argument list, id of the key the implementation derived for it) *)
+Definition key_matrix_ok (forms : list (call * Z)) : bool :=
+  forallb (fun x => call_wfb (fst x)
+                    && forallb (fun y => Bool.eqb (call_eqvb (fst x) (fst y)) (Z.eqb (snd x) (snd y))) forms) forms.
